@@ -12,7 +12,8 @@ import (
 // WebsocketConnection implements a ReadWriteCloser over a websocket connection
 type WebsocketTunnelConnection struct {
 	*websocket.Conn
-	closed bool
+	closed  bool
+	pending []byte // rest of a message that did not fit the reader's buffer
 }
 
 func NewWebsocketTunnelConnection(conn *websocket.Conn) *WebsocketTunnelConnection {
@@ -22,6 +23,13 @@ func NewWebsocketTunnelConnection(conn *websocket.Conn) *WebsocketTunnelConnecti
 }
 
 func (wstc *WebsocketTunnelConnection) Read(p []byte) (int, error) {
+	// Hand out what is left of the previous message first: the caller's buffer may be smaller than a message
+	if len(wstc.pending) > 0 {
+		n := copy(p, wstc.pending)
+		wstc.pending = wstc.pending[n:]
+		return n, nil
+	}
+
 	messageType, message, err := wstc.Conn.ReadMessage()
 	if messageType == websocket.CloseMessage || messageType == -1 {
 		return 0, io.EOF
@@ -31,14 +39,12 @@ func (wstc *WebsocketTunnelConnection) Read(p []byte) (int, error) {
 		return 0, errors.WithStack(err)
 	}
 
-	msgLen := len(message)
-	if len(p) < msgLen {
-		return 0, errors.Errorf("Buffer to small: message size is %v, but buffer size is %v", msgLen, len(p))
+	n := copy(p, message)
+	if n < len(message) {
+		wstc.pending = message[n:]
 	}
 
-	copy(p, message)
-
-	return msgLen, nil
+	return n, nil
 }
 
 // Write will take a stream of bytes and send it over a websocket connection.
